@@ -20,7 +20,7 @@ RULE = ("Hypothesis-generated objectives whose unconstrained minimum lies outsid
         "leaves the box. Distinct = distinct case digest.")
 RULE = RULE + RULE_EXTRA
 ASSUMPTIONS = [
-    "containment tolerance t = 1e-12*(|lower|+|upper|+width) per coordinate (rounding of the affine map only)",
+    "containment is exact: lower <= y <= upper in every coordinate, no tolerance",
     "global-phase evaluations = the first numberOfGlobalTrials entries of the Calculate log",
 ]
 NONTRIVIAL_FLOOR = {"quick": 150, "thorough": 1500}
@@ -44,6 +44,20 @@ def cases(draw):
         recipe = draw(gen.int_box_recipe(dims=(1, 2, 3, 4, 5), densities=(10, 6, 12), families=OUTSIDE))
     iters = st.one_of(st.sampled_from([1, 2, 3, 20, 40, 100, 400, 2000]), st.integers(5, 400))
     params = draw(gen.solver_params(recipe["n"], recipe["density"], iters, cheap=True))
+    if draw(st.integers(0, 7)) == 0:
+        # the search is pushed to the float resolution next to a face of the box: a 1-D objective that decreases
+        # towards one end, eps far below the spacing of doubles (two-decimal bounds in half of the cases: the rounded
+        # width and midpoint of such boxes are the ones that carry an unclipped image across the face)
+        if draw(st.booleans()):
+            a = draw(st.integers(-300, 300)) / 100.0
+            box = {"lower": [a], "upper": [a + draw(st.integers(1, 300)) / 100.0]}
+        else:
+            box = draw(gen.boxes(1))
+        c = draw(st.sampled_from([1.0, -1.0])) * draw(st.floats(0.1, 10.0))
+        recipe = {"n": 1, "lower": box["lower"], "upper": box["upper"], "density": 10,
+                  "obj": {"family": "linear", "c": [c]}}
+        params = {"r": draw(gen.r_values), "eps": float(10.0 ** -draw(st.integers(17, 300))),
+                  "itersLimit": draw(st.sampled_from([120, 200, 400]))}
     sp = draw(gen.start_points(recipe, outside=True))
     if sp is not None:
         params = dict(params, startPoint=sp)      # a start point, possibly outside the box: nothing is evaluated there
@@ -100,15 +114,15 @@ def body(case):
         sol = run.results()
     else:
         run = Run(recipe, case["params"], refine=case["refine"])
+        run.line_guard = case["params"]["eps"] < 1e-12
         sol = run.solve()
     if case.get("decoy") is not None:
         decoy = Run(case["decoy"], {"r": 2.5, "eps": 1e-2, "itersLimit": 30}, record=False)
         decoy.solve()
     lo, hi = recipe["lower"], recipe["upper"]
-    tol = [1e-12 * (abs(a) + abs(b) + (b - a)) for a, b in zip(lo, hi)]
 
     def inside(y):
-        return all(a - t <= v <= b + t for v, a, b, t in zip(y, lo, hi, tol))
+        return all(a <= v <= b for v, a, b in zip(y, lo, hi))
 
     nglob = sol.numberOfGlobalTrials
     log = run.problem.log
@@ -146,7 +160,8 @@ def body(case):
                "startPoint" if case["params"].get("startPoint") else "no-startPoint",
                "int-typed-bounds" if (recipe.get("style") or {}).get("bounds") else "float-bounds",
                "decoy-solver" if case.get("decoy") is not None else "no-decoy",
-               "descent-leaves-box=%s" % out, "local-evals>0" if len(log) > nglob else "local-evals=0"]
+               "descent-leaves-box=%s" % out,
+               "float-resolution-at-a-face" if case["params"]["eps"] < 1e-12 else "ordinary-eps", "local-evals>0" if len(log) > nglob else "local-evals=0"]
     return (case["refine"] and out), classes, {"case": case, "global": nglob, "local": len(log) - nglob}
 
 
